@@ -164,12 +164,27 @@ macro_rules! run_chain {
                                         draws.push(json!({"err": format!("{e:?}")}));
                                         break;
                                     }
-                                    Ok(Ok((_pos, _expanded, mut stats, progress))) => {
+                                    Ok(Ok((pos, _expanded, mut stats, progress))) => {
+                                        // the values of the position-describing statistics (C03 audit)
+                                        let mut described = serde_json::Map::new();
                                         let row: Vec<J> = {
                                             let math = chain.math();
                                             let dims = nuts_rs::verif::StatsDims::from(&*math);
                                             let all = stats.get_all(&dims);
+                                            for (n, v) in all.iter() {
+                                                if matches!(*n, "unconstrained_draw" | "gradient" | "logp" | "index_in_trajectory" | "energy" | "energy_error" | "depth" | "n_steps") {
+                                                    if let Some(v) = v {
+                                                        described.insert(n.to_string(), value_to_json(v)["v"].clone());
+                                                    }
+                                                }
+                                            }
                                             all.iter().map(|(n, v)| entry_json(n, v)).collect()
+                                        };
+                                        let (ref_logp, ref_grad) = {
+                                            let l = build_logp(case);
+                                            let mut g = vec![0.0; dim];
+                                            let lp = l.plain_logp(&pos, &mut g);
+                                            (lp, g)
                                         };
                                         let pr = catch(|| probe(&chain, &mut aux)).ok();
                                         draws.push(json!({
@@ -180,6 +195,10 @@ macro_rules! run_chain {
                                             "id_after": pr.map(|p| p.0),
                                             "has_inner": pr.and_then(|p| p.1),
                                             "row": row,
+                                            "pos": pos.iter().map(|x| x.to_bits().to_string()).collect::<Vec<_>>(),
+                                            "ref_logp": ref_logp.to_bits().to_string(),
+                                            "ref_grad": ref_grad.iter().map(|x| x.to_bits().to_string()).collect::<Vec<_>>(),
+                                            "described": described,
                                         }));
                                     }
                                 }
